@@ -22,7 +22,6 @@ import (
 	"go/token"
 	"os"
 	"path/filepath"
-	"sort"
 	"strconv"
 	"strings"
 )
@@ -43,6 +42,15 @@ type fileCtx struct {
 	imports map[string]string // alias -> last path element
 	aliases map[string]string // local type alias -> "pkg.Name"
 	funcs   map[string]*ast.FuncDecl
+	helper  map[string]string // private helper function -> canonical id "h<i>" (order of declaration)
+}
+
+// the name under which a function of this file is called: a private helper by its canonical id
+func (f *fileCtx) fname(n string) string {
+	if id, ok := f.helper[n]; ok {
+		return id
+	}
+	return n
 }
 
 type fnCtx struct {
@@ -249,7 +257,7 @@ func (c *fnCtx) call(x *ast.CallExpr) string {
 			return fmt.Sprintf("(EAppend %s %s)", c.expr(x.Args[0]), c.expr(x.Args[1]))
 		}
 		if _, isLocal := c.locals[f.Name]; !isLocal {
-			return fmt.Sprintf("(EFun \"\" %s %s)", coqString(f.Name), c.exprs(x.Args))
+			return fmt.Sprintf("(EFun \"\" %s %s)", coqString(c.f.fname(f.Name)), c.exprs(x.Args))
 		}
 	case *ast.IndexExpr:
 		// asType[V](e), helper[V](...), col.Array[V](notation)
@@ -283,7 +291,14 @@ func (c *fnCtx) generic(fun ast.Expr, targs []ast.Expr, x *ast.CallExpr) string 
 		if f.Name == "asType" && len(targs) == 1 && len(x.Args) == 1 {
 			return fmt.Sprintf("(EAsType %s %s)", ts[0], c.expr(x.Args[0]))
 		}
-		return fmt.Sprintf("(EFun \"\" %s %s)", coqString(f.Name), c.exprs(x.Args))
+		// a generic function of this file: the type arguments must be the caller's own type parameters, in order
+		// (then they are K / V of the caller); anything else has no meaning
+		for _, t := range ts {
+			if t != "TyK" && t != "TyV" {
+				return "(EUnknown " + coqString(text(x)) + ")"
+			}
+		}
+		return fmt.Sprintf("(EFun \"\" %s %s)", coqString(c.f.fname(f.Name)), c.exprs(x.Args))
 	case *ast.SelectorExpr:
 		if id, ok := f.X.(*ast.Ident); ok {
 			if p, ok := c.f.imports[id.Name]; ok {
@@ -570,7 +585,7 @@ func main() {
 		fmt.Fprintln(os.Stderr, "gomodule:", err)
 		os.Exit(2)
 	}
-	fc := &fileCtx{imports: map[string]string{}, aliases: map[string]string{}, funcs: map[string]*ast.FuncDecl{}}
+	fc := &fileCtx{imports: map[string]string{}, aliases: map[string]string{}, funcs: map[string]*ast.FuncDecl{}, helper: map[string]string{}}
 	for _, im := range file.Imports {
 		name := lastElem(im.Path.Value)
 		alias := name
@@ -597,6 +612,23 @@ func main() {
 		case *ast.FuncDecl:
 			if x.Recv == nil {
 				fc.funcs[x.Name.Name] = x
+			}
+		}
+	}
+	// private helpers: the functions of the file other than the universal constructors, asType and the notation
+	// functions, in the order of their declaration
+	skip := map[string]bool{"asType": true, "ParseSource": true, "FormatValue": true, "ImplementsAspect": true, "IsDefined": true, "IsUndefined": true, "CDCN": true, "JSON": true, "XML": true}
+	var helpers []string
+	for _, d := range file.Decls {
+		if fd, ok := d.(*ast.FuncDecl); ok && fd.Recv == nil {
+			n := fd.Name.Name
+			isU := false
+			for _, u := range universal {
+				isU = isU || u == n
+			}
+			if !isU && !skip[n] {
+				fc.helper[n] = fmt.Sprintf("h%d", len(helpers))
+				helpers = append(helpers, n)
 			}
 		}
 	}
@@ -638,19 +670,6 @@ func main() {
 			fmt.Fprintf(&b, "Definition gen_%s : gen_ctor := {| g_name := %s; g_where := \"missing\"; g_tparams := 0; g_locals := 0; g_body := [SUnknown \"function not found\"] |}.\n\n", n, coqString(n))
 		}
 	}
-	// private helpers (generic functions other than the universal constructors, asType and the notation functions)
-	skip := map[string]bool{"asType": true, "ParseSource": true, "FormatValue": true, "ImplementsAspect": true, "IsDefined": true, "IsUndefined": true, "CDCN": true, "JSON": true, "XML": true}
-	var helpers []string
-	for n := range fc.funcs {
-		isU := false
-		for _, u := range universal {
-			isU = isU || u == n
-		}
-		if !isU && !skip[n] {
-			helpers = append(helpers, n)
-		}
-	}
-	sort.Strings(helpers)
 	for _, n := range helpers {
 		emit("gen_helper_"+n, fc.funcs[n])
 	}
@@ -664,7 +683,7 @@ func main() {
 		for _, f := range fd.Type.Params.List {
 			np += len(f.Names)
 		}
-		fmt.Fprintf(&b, "(%s, (%d%%nat, gen_helper_%s))", coqString(n), np, n)
+		fmt.Fprintf(&b, "(%s, (%d%%nat, gen_helper_%s))", coqString(fc.helper[n]), np, n)
 	}
 	b.WriteString("].\n")
 	b.WriteString("Definition gen_ctors : list gen_ctor := [gen_Association; gen_Array; gen_Catalog; gen_List; gen_Map; gen_Queue; gen_Set; gen_Stack].\n")
